@@ -149,15 +149,17 @@ def stage_kp(ctx, drv):
     ctx.log("driver: %d parameter records executed in %.1fs" % (n, r.wall))
     # records the proto format cannot carry are validated apart: every one of them may disagree in the same way,
     # and one replay per signature is enough
-    nacc = nkeys = 0
+    nacc = nkeys = nref = 0
     for line in open(tr):
         e = json.loads(line)
         nacc += e.get("accepted", False)
         nkeys += sum(1 for k in e.get("keys", []) if k["built"])
+        nref += e.get("accepted", False) and not e["tpl"]["ser"]
+        nref += sum(1 for k in e.get("keys", []) if k["built"] and not k["ser"])
     mism, n1 = ctx.validate_events("Trace_KeyParams", tr, shards=16 if ctx.thorough else 10, stage="T:key/parameter round trips")
     handle_mismatches(ctx, mism, kp_signature, slim_kp)
     n2 = 0
-    ctx.stage("R:key/parameter round trips", records=n, accepted_by_constructor=nacc, keys_built=nkeys)
+    ctx.stage("R:key/parameter round trips", records=n, accepted_by_constructor=nacc, keys_built=nkeys, refused_by_serializer=nref)
     ctx.cov["traces_validated_against_impl"] += n1 + n2
     lines = open(tr).read().splitlines()
     for k in (len(lines) // 3, 2 * len(lines) // 3):
@@ -169,7 +171,8 @@ def stage_kp(ctx, drv):
         for x in lines:
             if json.loads(x)["kt"] not in dirty:
                 f.write(x + "\n")
-    ctx.negative_control("Trace_KeyParams", clean, corrupt_kp, window=60, stage="NC:Trace_KeyParams")
+    if not ctx.violations:    # (known findings are filtered out above; with a new violation the run fails anyway)
+        ctx.negative_control("Trace_KeyParams", clean, corrupt_kp, window=60, stage="NC:Trace_KeyParams")
     return True
 
 
@@ -249,8 +252,8 @@ def stage_io(ctx, drv):
         handle_mismatches(ctx, mism, lambda m: "replay", slim_io)
         return True
     if ctx.thorough:
-        ctx.model_check("MC_KeysetIO", "MC_KeysetIO", stage="M:KeysetIO ids 0..2, <=2 keys, 2 prefixes, 5 materials, 2 keks, 3 ads", workers=8)
-    ctx.model_check("MC_KeysetIO", "MC_KeysetIO_quick", stage="M:KeysetIO ids 0..1, <=2 keys, 5 materials, 2 keks, 3 ads", workers=4, heap="4g")
+        ctx.model_check("MC_KeysetIO", "MC_KeysetIO", stage="M:KeysetIO ids 0..2, <=2 keys, 2 prefixes, 5 materials, 2 keks, 3 ads", workers=4)
+    ctx.model_check("MC_KeysetIO", "MC_KeysetIO_quick", stage="M:KeysetIO ids 0..1, <=2 keys, 5 materials, 2 keks, 3 ads", workers=1, heap="4g")
     hp, nh = plan_handles(ctx, "singles,pairs,mats,random", 100000 if ctx.thorough else 60, 1500 if ctx.thorough else 60)
     tr = os.path.join(ctx.scratch, "io.ndjson")
     r = ctx.run([drv, "-mode", "io", "-handles", hp, "-out", tr], timeout=2400)
@@ -273,7 +276,8 @@ def stage_io(ctx, drv):
         for x in lines:
             if json.loads(x)["n"] not in bad_n:
                 f.write(x + "\n")
-    ctx.negative_control("Trace_KeysetIO", clean, corrupt_io, window=40, stage="NC:Trace_KeysetIO")
+    if not ctx.violations:
+        ctx.negative_control("Trace_KeysetIO", clean, corrupt_io, window=40, stage="NC:Trace_KeysetIO")
     return True
 
 
@@ -298,6 +302,8 @@ def run(ctx):
     if "io" in only:
         stage_io(ctx, drv)
 
+
+SELFTESTS = ["Self_KeyFormatWire"]   # protobuf encoding examples + Tink's template constants gate KeyFormatWire.tla
 
 MANIFEST = dict(
     category="model_checking",
